@@ -468,6 +468,36 @@ fn probe_gate_variant() -> u8 {
     }
 }
 
+/// Second behavioural probe: finding C01-eof-lookahead-range-added — lst, text "ab cd" parsed with
+/// ranges [0,2), then ranges [0,2);[3,5).  A runtime with the repair re-lexes the word.
+fn probe_eof_variant() -> u8 {
+    let b = match zoo::load("lst") {
+        Ok(b) => b,
+        Err(_) => return 0,
+    };
+    let text = b"ab cd";
+    let r = |a: usize, e: usize| Range { start_byte: a, end_byte: e, start_point: Point { row: 0, column: a }, end_point: Point { row: 0, column: e } };
+    let mut p = Parser::new();
+    p.set_language(&b.language).unwrap();
+    if p.set_included_ranges(&[r(0, 2)]).is_err() {
+        return 0;
+    }
+    let old = match p.parse(text, None) {
+        Some(t) => t,
+        None => return 0,
+    };
+    p.set_included_ranges(&[r(0, 2), r(3, 5)]).unwrap();
+    let incr = p.parse(text, Some(&old));
+    let mut q = Parser::new();
+    q.set_language(&b.language).unwrap();
+    q.set_included_ranges(&[r(0, 2), r(3, 5)]).unwrap();
+    let scratch = q.parse(text, None);
+    match (incr, scratch) {
+        (Some(a), Some(b)) if a.root_node().to_sexp() == b.root_node().to_sexp() => 1,
+        _ => 0,
+    }
+}
+
 fn main() {
     limit_resources();
     let args: Vec<String> = std::env::args().collect();
@@ -475,8 +505,10 @@ fn main() {
     let langs_path = args.get(2).expect("langs file").clone();
     let variant = probe_gate_variant();
     let mut em = Emit { current: format!("{out_path}.current"), out: std::io::BufWriter::with_capacity(1 << 20, std::fs::File::create(&out_path).unwrap()), langs_seen: BTreeMap::new(), cases: 0 };
+    let eof_variant = probe_eof_variant();
     writeln!(em.out, "variant colfix {variant}").unwrap();
-    eprintln!("c01: gate variant probed behaviourally: colfix={variant}");
+    writeln!(em.out, "variant eoffix {eof_variant}").unwrap();
+    eprintln!("c01: gate variant probed behaviourally: colfix={variant} eoffix={eof_variant}");
     let mut built: BTreeMap<String, zoo::Built> = BTreeMap::new();
     let mut get = |id: &str, built: &mut BTreeMap<String, zoo::Built>| -> bool {
         if !built.contains_key(id) {
